@@ -12,7 +12,8 @@ from ..solver import make_pv, solve
 ID = "C09"
 RULE = ("cases: mixtures (8 built-in + synthetic, NRTL - a DiffusionCurve has no model field and always inverts with NRTL) x 3 permeate modes "
         "x permeances 1e-6..1 supplied in kg/(m2 h kPa), SI or GPU x 1..4 feed compositions in (0,1), molar or mass x T 273..400 K x "
-        "precision 1e-8..1e-5. non-trivial = permeate temperature or pressure>0 and both driving forces > 1e-3 of the feed partial pressure "
+        "precision 1e-8..1e-5; curves read once before use (every second case), permeances tabulated in any unit (from_frame), one shared "
+        "Permeance object for both components. non-trivial = permeate temperature or pressure>0 and both driving forces > 1e-3 of the feed partial pressure "
         "for every point; distinct = SHA-1 of the case JSON")
 ASSUMPTIONS = ["round-trip tolerance = the exact effect of the solver's stopping tolerance, |pp_i(y*)-pp_i(y_k)|/|pf_i-pp_i(y*)| (x2) + 1e-9, "
                "with y_k the last iterate observed through the evaluation trace",
